@@ -264,6 +264,7 @@ var mapping = seq.Mapping{
 }
 
 type env struct {
+	inflight int
 	maxDoc int
 	B      int
 	ings   []*bulk.Ingestor
@@ -360,7 +361,7 @@ type histItem struct {
 func newEnv(maxDoc int) *env { return newEnvN(maxDoc, 1) }
 
 func newEnvN(maxDoc, inflight int) *env {
-	e := &env{maxDoc: maxDoc, B: max(maxDoc, 16)}
+	e := &env{maxDoc: maxDoc, B: max(maxDoc, 16), inflight: inflight}
 	mp, err := mappingprovider.New("", mappingprovider.WithMapping(mapping))
 	if err != nil {
 		panic(err)
@@ -1514,7 +1515,16 @@ func worker(spec workerSpec, out io.Writer) {
 	if len(spec.Modes) == 1 && spec.Modes[0] == "overlap" {
 		e := newEnvN(spec.MaxDoc, 8)
 		for i := 0; i < spec.N; i++ {
-			runHistory(e, newHistory(e, r), emit)
+			h := newHistory(e, r)
+			runHistory(e, h, emit)
+			// every request is over: all rate-limit tickets must be back (a lost one would make later requests wait)
+			for _, ing := range e.ings {
+				if ing.VerifTickets() != e.inflight {
+					emit(record{Kind: "viol", Fp: "rate-limit-ticket-lost", What: fmt.Sprintf("after all requests of the history returned %d of %d rate-limit tickets are available", ing.VerifTickets(), e.inflight), Hist: h})
+					e = newEnvN(spec.MaxDoc, 8)
+					break
+				}
+			}
 		}
 		return
 	}
@@ -1668,7 +1678,7 @@ func main() {
 		fmt.Fprintln(os.Stderr, "need -out")
 		os.Exit(2)
 	}
-	w, err := casefile.New(*out, "C10", "From Coq Require Import Uint63 ZArith.\nFrom C10 Require Import Model ModelMeta Spec CaseDefs.", 250)
+	w, err := casefile.New(*out, "C10", "From Coq Require Import Uint63 ZArith.\nFrom C10 Require Import Model ModelMeta Spec ModelOwn CaseDefs.", 250)
 	if err != nil {
 		panic(err)
 	}
